@@ -290,7 +290,7 @@ func ladderC08(c *Ctx, f *ssa.Function, parse map[string]int64) {
 				}
 			case *ssa.Return:
 				if k, isC := x.Results[0].(*ssa.Const); isC && k.Value != nil && k.Value.Kind() == constant.String {
-					suffix, ok = "=" + constant.StringVal(k.Value), true
+					suffix, ok = "="+constant.StringVal(k.Value), true
 				}
 			}
 		}
